@@ -194,5 +194,9 @@ DecodeTiger(s) ==
 CarryTiger(T) ==
   {IF x.tok THEN PN(x.y, x.d, TRUE, x.a.word, x.a.lab, Dflt(x.a.lemma, Dash2), Dflt(x.a.morph, Dash2), Dflt(x.a.edge, Dash2))
    ELSE PN(x.y, x.d, FALSE, NA, x.a.lab, NA, NA, IF x.d = 0 THEN NA ELSE Dflt(x.a.edge, Dash2)) : x \in T.nodes}
+\* a TIGER-XML file as a treebank provides it: lemma and morph are optional attributes (absent = NoneC)
+CarryTigerIn(T) ==
+  {IF x.tok THEN PN(x.y, x.d, TRUE, x.a.word, x.a.lab, x.a.lemma, x.a.morph, Dflt(x.a.edge, Dash2))
+   ELSE PN(x.y, x.d, FALSE, NA, x.a.lab, NA, NA, IF x.d = 0 THEN NA ELSE Dflt(x.a.edge, Dash2)) : x \in T.nodes}
 
 =============================================================================
